@@ -105,7 +105,8 @@ def tokens(src: str):
     for n in ast.walk(t):
         if isinstance(n, ast.Name): c[("name", n.id)] += 1
         elif isinstance(n, ast.Attribute): c[("attr", n.attr)] += 1
-        elif isinstance(n, ast.keyword): c[("kw", n.arg)] += 1
+        elif isinstance(n, ast.keyword): c[("kw", n.arg if n.arg is not None else "**")] += 1     # f(**kw): the unpacking marker is a token too
+        elif isinstance(n, ast.Starred): c[("unpack", "*")] += 1
         elif isinstance(n, ast.Constant): c[("const", repr(n.value))] += 1
         elif isinstance(n, ast.alias): c[("import", n.name + (" as " + n.asname if n.asname else ""))] += 1
         elif isinstance(n, ast.ImportFrom): c[("from", n.module or "")] += 1
